@@ -22,6 +22,7 @@ import (
 type fnStats map[string]int
 
 type gen struct {
+	aliasN   int
 	r        *rand.Rand
 	s        *oracle.Session
 	w        *world.World
